@@ -652,13 +652,13 @@ func c14All(c *Ctx, v *sxView, m *types.Func, loop *LoopRec, main *Path, exits [
 				passed[k] = true
 			}
 		}
-		isWanted := false
+		// every field has exactly one kind (C12): an element that passed the test of another kind is identified as not wanted
+		isWanted, isOther := false, false
 		for k := range passed {
 			if wantSet[k] {
 				isWanted = true
 			} else {
-				r2("guard").Fail("%s tests for kind %q, the property demands exactly %v", m.Name(), k, want)
-				return
+				isOther = true
 			}
 		}
 		switch ip.End {
@@ -677,7 +677,7 @@ func c14All(c *Ctx, v *sxView, m *types.Func, loop *LoopRec, main *Path, exits [
 				return
 			}
 			for _, k := range want {
-				if !tested[k] {
+				if !tested[k] && !isOther {
 					r2("guard").Fail("`return false` is reached without testing for kind %q", k)
 					return
 				}
